@@ -587,9 +587,31 @@ def check_image(ctx, res, image, seps, sep_arg, pctF, margin_arg, precise, sig_b
     return facts
 
 
+def memory_layout(image, k):
+    """the same pixel values in another memory layout (what a transposed view, a Fortran-ordered
+    copy, a crop of a larger frame or a (y, x, z) stack viewed as (z, y, x) look like)"""
+    k = k % 6
+    if k == 1:
+        return np.asfortranarray(image), "fortran"
+    if k == 2:
+        return np.ascontiguousarray(image.T).T, "transposed_view"
+    if k == 3:
+        big = np.zeros(tuple(2 * s + 3 for s in image.shape), dtype=image.dtype)
+        sl = tuple(slice(1, 1 + 2 * s, 2) for s in image.shape)
+        big[sl] = image
+        return big[sl], "strided_crop"
+    if k == 4 and image.ndim == 3:
+        return np.moveaxis(np.ascontiguousarray(np.moveaxis(image, 0, -1)), -1, 0), "moved_axis"
+    if k == 5:
+        return np.ascontiguousarray(image[::-1])[::-1], "flipped_view"
+    return image, "c"
+
+
 def run_image_case(ctx, inp):
     res = Result()
     image = build_image(inp)
+    image, lay = memory_layout(image, len(inp["pixels"]) + sum(image.shape))
+    res.stat("layout_" + lay)
     nd = image.ndim
     seps = [Fraction(s) for s in inp["sep"]]
     if len(seps) != nd:
